@@ -599,8 +599,9 @@ EvUrgent == EvEager /\ \E e \in EvDeb : \/ evPc[e] = "select" /\ evTimer[e] = "f
                                         \/ evPc[e] = "woke"
                                         \/ evPc[e] = "locking" /\ evMu[e] = "fl"
                                         \/ \E k \in Closers : kpc[k] = "evl_" \o e /\ evMu[e] = "stop"
-Next == IF EvUrgent THEN \E e \in EvDeb : EvUrgentStep(e) \/ \E k \in Closers : EvUrgentStop(k, e)
-        ELSE SysNext \/ EnvNext \/ Idle
+Next == SysNext \/ EnvNext \/ Idle
+NextEager == IF EvUrgent THEN \E e \in EvDeb : EvUrgentStep(e) \/ \E k \in Closers : EvUrgentStop(k, e)
+             ELSE SysNext \/ EnvNext \/ Idle
 
 \* one weak-fairness condition per goroutine (its steps are mutually exclusive by program counter)
 Fairness ==
@@ -613,6 +614,7 @@ Fairness ==
 
 Spec == Init /\ [][Next]_vars /\ Fairness
 SpecNoFair == Init /\ [][Next]_vars
+SpecEager == Init /\ [][NextEager]_vars
 
 (* ======================= what C17 demands ================================== *)
 TypeOK ==
